@@ -4,7 +4,7 @@ The deciding step of every check is in the engine (SMT verdicts over path condit
 /repo's current working tree). This module only schedules jobs, replays solver models against the natively
 compiled package, and writes the evidence file.
 """
-import json, os, re, subprocess, sys, tempfile, threading, time, shutil, hashlib, queue, glob
+import atexit, json, os, re, subprocess, sys, tempfile, threading, time, shutil, hashlib, queue, glob
 
 VERIF = os.path.dirname(os.path.dirname(os.path.abspath(__file__)))
 REPO = os.environ.get("VERIF_REPO", "/repo")
@@ -137,6 +137,7 @@ class Native:
     def __init__(self, overlays):
         self.overlays = overlays
         self.tmp = tempfile.mkdtemp(prefix="verif-replay-")
+        atexit.register(self.close)
         reg = os.path.join(self.tmp, "registry_test.go")
         with open(reg, "w") as f:
             f.write("//go:build verif\n\npackage libinjection\n\nvar vRegistry = map[string]interface{}{\n")
@@ -223,6 +224,23 @@ class Native:
         if not os.path.exists(outp):
             return {"ratio": 0.0, "note": "no timing result"}
         return json.load(open(outp))
+
+    def pump(self, data, prefixes=(b"", b"<a ", b"<a b='", b"<", b"<a b=x "), reps=300000):
+        """C02: does repeating some 1- or 2-byte slice of `data` make the natively compiled detector overflow its (capped) stack?"""
+        tried = 0
+        for l in (1, 2):
+            for i in range(0, len(data) - l + 1):
+                for pre in prefixes:
+                    spec = {"Prefix": pre.hex(), "Head": data[:i].hex(), "Unit": data[i:i + l].hex(), "Tail": data[i + l:].hex(), "Reps": reps}
+                    env = dict(ENV, VERIF_PUMP=json.dumps(spec))
+                    tried += 1
+                    try:
+                        r = subprocess.run([self.bin, "-test.run", "^TestVerifPump$", "-test.count=1", "-test.timeout=0"], cwd=REPO, env=env, capture_output=True, text=True, timeout=120)
+                    except subprocess.TimeoutExpired:
+                        continue
+                    if "stack overflow" in (r.stdout + r.stderr) or "stack exceeds" in (r.stdout + r.stderr):
+                        return True, {"pumped": (pre + data[:i]).decode("latin-1") + "(" + data[i:i + l].decode("latin-1") + ")^%d" % reps + data[i + l:].decode("latin-1"), "tried": tried}
+        return False, {"tried": tried}
 
     def close(self):
         shutil.rmtree(self.tmp, ignore_errors=True)
